@@ -291,6 +291,9 @@ impl RK23 {
                             k1.copy_from_slice(&k4);
                         }
                     }
+                } else {
+                    // No callback: the derivative at the new point is still the next step's first stage.
+                    k1.copy_from_slice(&k4);
                 }
 
                 // Adjust step size
